@@ -21,6 +21,7 @@ type c04Config struct {
 	Yaml *string // nil = file absent
 	Dir  bool    // toolchain.yaml is a directory
 	Cfg  ref.CmdCfg
+	Near core.Tree // other files beside the (absent) configuration file: they are not the configuration
 }
 
 func sp(s string) *string { return &s }
@@ -73,6 +74,11 @@ func c04Configs() []c04Config {
 		{Name: "empty-file", Yaml: sp("")},
 		{Name: "only-unix-evasion", Yaml: sp("patterns:\n  anti_evasion:\n    unix: '[q]*'\n"), Cfg: ref.CmdCfg{UnixEvasion: "[q]*"}},
 		{Name: "absent"},
+		// files named almost like the configuration file do not stand in for it
+		{Name: "absent-with-look-alikes", Near: core.Tree{"regex-assembly/toolchain.yml": c04YamlPlain(dummy), "regex-assembly/toolchain.yaml.bak": c04YamlPlain(dummy),
+			"regex-assembly/Toolchain.yaml": c04YamlPlain(dummy), "toolchain.yaml": c04YamlPlain(dummy), "regex-assembly/include/toolchain.yaml": c04YamlPlain(dummy)}},
+		// a document that is YAML's null, or only a document marker
+		{Name: "null-document", Yaml: sp("---\n")}, {Name: "tilde-document", Yaml: sp("~\n")}, {Name: "null-patterns", Yaml: sp("patterns: ~\n")}, {Name: "null-then-patterns", Yaml: sp("---\n---\n" + c04YamlPlain(dummy))},
 		{Name: "invalid-yaml", Yaml: sp("patterns: [unclosed\n  anti_evasion: {{{\n")},
 		{Name: "is-a-directory", Dir: true},
 	}
@@ -186,6 +192,9 @@ func C04(r *core.Run) {
 				t["regex-assembly/toolchain.yaml/"] = ""
 			} else if c.Yaml != nil {
 				t["regex-assembly/toolchain.yaml"] = *c.Yaml
+			}
+			for k, v := range c.Near {
+				t[k] = v
 			}
 			t.Materialise(d)
 			roots[c.Name] = d
